@@ -177,6 +177,9 @@ func (cr *crashRunner) take(point string) string {
 func (cr *crashRunner) hook(point string) {
 	cr.mu.Lock()
 	defer cr.mu.Unlock()
+	if cr.r.mute {
+		return
+	}
 	cr.closeWindow()
 	dst := cr.take(point)
 	for _, p := range []string{"ro.TrimSegments:pre", "cur.Delete:pre", "ro.Delete:pre", "ro.Close:post"} {
@@ -448,6 +451,8 @@ func runCrashCase(c caseT, root string, k int) (res crashResult) {
 	live := filepath.Join(root, fmt.Sprintf("w%d", k))
 	snapRoot := filepath.Join(root, fmt.Sprintf("snap%d", k))
 	os.RemoveAll(live)
+	os.RemoveAll(live + "x")
+	defer os.RemoveAll(live + "x")
 	os.RemoveAll(snapRoot)
 	defer os.RemoveAll(live)
 	defer os.RemoveAll(snapRoot)
